@@ -11,7 +11,7 @@ import ast
 from .core import AnchorError, Unsupported
 from .e1_srcmodel import qualname_of
 from .c09_terms import World, Unsup, is_tag, is_const, subterms, contains, show, NONE, ZEROS, EMPTY
-from .c09_run import explore, join_index, live_in, compatible, equal_mod_alloc, diff_text, resolve
+from .c09_run import explore, join_index, live_in, compatible, equal_mod_alloc, diff_text, resolve, mode_atoms, extend_join
 
 SRS = "pyyeti/srs.py"
 FDE = "pyyeti/fdepsd.py"
@@ -33,8 +33,12 @@ class Analysis:
             if fn is None:
                 raise AnchorError(f"function {q} not found in {rel}")
             K = join_index(self.world, rel, fn)
-            live = live_in(fn.body[K + 1:], set())
             leaves = explore(self.world, rel, q, K)
+            K2 = extend_join(fn, K, leaves)
+            if K2 != K:
+                K = K2
+                leaves = explore(self.world, rel, q, K)
+            live = live_in(fn.body[K + 1:], set())
             if not leaves:
                 raise Unsup(f"{q}: no live path")
             self.entries[q] = (rel, fn, K, live, leaves)
@@ -435,12 +439,7 @@ def r5_serial_equals_worker(ctx):
             raise AnchorError(f"{q}: parallel and serial paths ({len(P)} / {len(S)})")
         # the tests that tell the parallel mode from the serial mode: decided on every path, one way on all parallel paths, the other way on all
         # serial paths
-        mode = set()
-        for a in set().union(*[set(lf.assign) for lf in leaves]):
-            vp = {lf.assign[a] for lf in P if a in lf.assign}
-            vs = {lf.assign[a] for lf in S if a in lf.assign}
-            if len(vp) == 1 and len(vs) == 1 and vp != vs:
-                mode.add(a)
+        mode = mode_atoms(leaves)
         if not mode:
             raise Unsup(f"{q}: no single test separates the parallel paths from the serial paths")
         for p in P:
